@@ -55,6 +55,7 @@ type bev struct {
 	AllVals  []int64 `json:"allvals,omitempty"` // the unspent values offered, in the order the selector saw them
 	Kinds    string  `json:"kinds,omitempty"`   // script kinds offered: s = P2SH, w = P2WSH
 	MN       string  `json:"mn,omitempty"`
+	Diag     string  `json:"diag,omitempty"` // why the reported total differs from the selected values (see diagnose)
 	Err      string  `json:"err,omitempty"`
 	Panic    string  `json:"panic,omitempty"`
 }
@@ -332,6 +333,7 @@ func (sc *scenario) withdrawChoose(amount int64) {
 			e.SelVals = append(e.SelVals, int64(u.Value))
 		}
 	}
+	sc.diagnose(&e, before, amount)
 	sc.sets(&e)
 	sc.events = append(sc.events, e)
 }
@@ -384,6 +386,7 @@ func (sc *scenario) withdrawMakeTx(amount int64) {
 		e.Sum = amount + e.Change
 		e.Fee = amount - pay
 	}
+	sc.diagnose(&e, before, amount)
 	sc.sets(&e)
 	sc.events = append(sc.events, e)
 }
@@ -408,7 +411,85 @@ func (sc *scenario) probe(amount int64, strategy string) {
 			e.SelVals = append(e.SelVals, int64(u.Value))
 		}
 	}
+	if strategy != "bnb" {
+		sc.diagnose(&e, before, amount)
+	}
 	sc.events = append(sc.events, e)
+}
+
+// diagnose explains a reported total that differs from the selected values (diagnostics for the finding key only; the
+// verdict is TLC's).  It recognises the two ways SortedSearch's running total goes stale:
+//
+//	"skip":    a P2SH outpoint dropped in the first pass (fee too high with it) keeps its value in the total;
+//	"replace": in the second pass the candidate is appended into the selection's own backing array
+//	           (selection[:len-1:cap-1]), so the "replaced" last pick is already the candidate when the total is adjusted.
+//
+// offered is the unspent set the call saw.  The selection is returned in picking order: all picks but the last are at
+// increasing positions of the sorted list, the first pass ended at some position q, later candidates replaced the last.
+func (sc *scenario) diagnose(e *bev, offered *btc.Utxos, amount int64) {
+	if e.Res != "ok" || len(e.Sel) == 0 {
+		return
+	}
+	var real int64
+	for _, v := range e.SelVals {
+		real += v
+	}
+	d := e.Sum - real
+	if d == 0 {
+		return
+	}
+	e.Diag = "unexplained"
+	so := &btc.Utxos{Utxos: append([]*btc.Utxo{}, offered.Utxos...)}
+	sort.Sort(sort.Reverse(so))
+	if e.Strategy == "sorted" {
+		// SortedSearch was called directly
+	} else if bn, _, _ := btc.VerifSelect("bnb", so, uint64(amount), sc.mc, sc.feeRate, sc.outs(amount), sc.m, sc.n); bn != nil {
+		return // the branch-and-bound search answered: not SortedSearch
+	}
+	pos := map[int]int{}
+	for i, u := range so.Utxos {
+		pos[sc.ids[opKey(u.Op)]] = i
+	}
+	chosen := map[int]bool{}
+	for _, id := range e.Sel {
+		if _, ok := pos[id]; !ok {
+			return
+		}
+		chosen[pos[id]] = true
+	}
+	lastPos := pos[e.Sel[len(e.Sel)-1]]
+	from := 0
+	if len(e.Sel) > 1 {
+		from = pos[e.Sel[len(e.Sel)-2]] + 1
+	}
+	lastVal := int64(so.Utxos[lastPos].Value)
+	for q := from; q <= lastPos; q++ {
+		var skipped int64
+		okSkip := true
+		for i := 0; i < q; i++ {
+			if !chosen[i] {
+				if !txscript.IsPayToScriptHash(so.Utxos[i].ScriptPubkey) {
+					okSkip = false
+				}
+				skipped += int64(so.Utxos[i].Value)
+			}
+		}
+		if !okSkip {
+			continue
+		}
+		repl := int64(so.Utxos[q].Value) - lastVal
+		switch {
+		case skipped > 0 && d == skipped:
+			e.Diag = "skip"
+			return
+		case q < lastPos && skipped == 0 && d == repl:
+			e.Diag = "replace"
+			return
+		case q < lastPos && skipped > 0 && repl != 0 && d == skipped+repl:
+			e.Diag = "skip+replace"
+			return
+		}
+	}
 }
 
 type recResult struct {
